@@ -73,3 +73,15 @@ package bunpaginate
 //@   loop 3 invariant forall j in 0..i :: ret[j] == lastScan[len(ret)-1-j] && ret[len(ret)-1-j] == lastScan[j]
 //@   loop 3 invariant forall j in i..len(ret)-i :: ret[j] == lastScan[j]
 //@   property C17
+
+// C17: following `next` on the server side (Iterate: v1 GET /_info, the driver's start-up loop, analytics). The token is
+// decoded into a pointer -- encoding/json decodes into what a non-pointer holds and throws the result away without an
+// error, leaving the zero query (offset 0, no limit, no filter) as the next request.
+//@ ufun holdsPointer(x any) bool
+//@ assume forall t0 reflect.Type :: holdsPointer(lib("(reflect.Value).Interface", lib("reflect.New", t0)))
+//@ func bunpaginate.UnmarshalCursor
+//@   requires in bunpaginate.Iterate: dynptr(to) || holdsPointer(to) // C17
+//@   modifies reachable
+//@   trusted base64 and encoding/json are library code
+//@ func bunpaginate.Iterate
+//@   alsofor C17
